@@ -2,7 +2,13 @@
 
 Histories are recorded from the real code by two stress harnesses (harness/go/utils, harness/go/midi) and judged by the
 Coq monitor Run/TransportRun.v:accepts_history (= relay_ok && in_ok && fanout_accepts), which Proofs/TransportProofs.v proves sound for
-every execution of the models.  The verdict is Coq's; python only generates scenarios and explains rejections."""
+every execution of the models.  The verdict is Coq's; python only generates scenarios and explains rejections.
+
+Long sessions (harness modes c15long / c15fanlong, harness/go/*/verif_c15long_test.go): state that only goes wrong after a long
+session (counters wrapping at 2^8 / 2^16, ring indices, id reuse after many attach/detach cycles) is exercised by sessions of 1600
+(quick) to 72000+ messages per direction with scripted consumers that let every buffer fill up around every multiple of 256, and by
+hundreds (quick) to 70000 (thorough) attach/detach cycles per fan-out session.  Their histories are written for coqc as runs of the
+harness' counter sequence (Run/TransportLongRun.v, Proofs/TransportLongProofs.v) and judged by the same accepts_history."""
 import json, os, random
 from concurrent.futures import ThreadPoolExecutor
 from common import *
@@ -59,6 +65,110 @@ def gen_relay(rng, idx):
             "send_cap": rng.choice([0, 0, 1, 4]), "recv_cap": rng.choice([0, 0, 1, 4]),
             "in_items": rng.choice([0, 20, 60, 150]), "jitter": rng.choice([0, 1, 2, 2]),
             "port_slow_us": rng.choice([0, 0, 0, 30]), "bound_ms": 8000}
+
+
+# ----------------------------------------------------------------------------- long sessions (counter wraps, ring indices, id reuse)
+#
+# Capacities, read off the source (internal/pkg/midi/process.go, internal/pkg/utils/fan.go) - used only to choose where the
+# scripted stalls start and to count how many of them filled everything (the harnesses detect "full" by the absence of
+# progress, whatever the capacities are):
+#   port -> devices: recv_cap (port's receive channel) + 1 (helper goroutine) + 10 (inEvents) + 1 (relay goroutine) + in_cap
+#   devices -> port: out_cap (midiEventsOut) + 1 (relay goroutine's ev) + send_cap (port's send channel)
+#   fan-out towards one consumer: icap (input channel) + 1 (run's e) + max(icap, 1) (its output channel)
+# A blocked producer adds one message (per emitter) to the observed depth = sends started - messages received.
+LONG_MIN = {"quick": 1600, "thorough": 72000}        # messages per direction in the longest sessions of the tier
+COUNTER_MSGS = 81920                                 # Run/TransportLongRun.v: cmsg k j is injective for j < 81920 (TransportLongProofs.cmsg_inj)
+STATUSES = [0x90, 0x80, 0xB0, 0xE0, 0xA0]            # = c15Statuses (harness) = cstatus (Run/TransportLongRun.v)
+FREE = 1 << 40
+
+
+def relay_caps(sc):
+    return {"in": sc["recv_cap"] + sc["in_cap"] + 12, "out": sc["out_cap"] + sc["send_cap"] + 1}
+
+
+def fan_cap(icap):
+    return icap + 1 + max(icap, 1)
+
+
+def long_ops(rng, items, cap, kind, idx, dense):
+    """The consumer's script for one direction.  cap = messages the relay can hold in that direction.
+    slide  : around every wrap point w: stop reading at w - (cap+4), let the producer run until it blocks (everything full), then
+             cap+12 times: read one message, wait until the producer is blocked again - the buffers are full at every absolute
+             index from w-(cap+4) to w+8, in particular while each of their slots is written with the messages w-1 and w
+    full   : lockstep up to w - d (all buffers empty), producer runs ahead until it blocks, drain; d cycles through 0..cap+4 with the wrap number
+             and the scenario index
+    depth  : as full, but the producer runs only K in 1..cap messages ahead (partially filled buffers across the wrap)
+    random : stalls of all three kinds at random indices, window (how far the producer may run ahead between stalls) changing at random
+    dense = False: only the wrap points 256..1280, 32768 and 65536 (and their neighbours) get the treatment - for long sessions in the quick tier."""
+    wraps = list(range(256, items, 256))
+    if not dense:
+        wraps = [w for w in wraps if w <= 1280 or w in (32768, 65280, 65536, 65792)]
+    D = cap + 4
+    ops = []
+    if kind == "slide":
+        for w in wraps:
+            if w - D >= 0:
+                ops.append({"at": w - D, "mode": "slide", "steps": D + 8, "k": 0, "window": -1})
+    elif kind == "full":
+        for n, w in enumerate(wraps):
+            d = (idx + 3 * n) % (D + 1)
+            ops.append({"at": max(0, w - d), "mode": "full", "steps": 0, "k": 0, "window": -1})
+    elif kind == "depth":
+        for w in wraps:
+            ops.append({"at": max(0, w - rng.randint(0, D)), "mode": "depth", "steps": 0, "k": rng.randint(1, max(1, cap)), "window": -1})
+    else:
+        n_ops = max(20, items // (40 if dense else 600))
+        for at in sorted(rng.sample(range(items), min(items, n_ops))):
+            m = rng.choice(["full", "full", "depth", "slide", "window"])
+            ops.append({"at": at, "mode": m, "steps": rng.randint(1, 6), "k": rng.randint(1, max(1, cap)),
+                        "window": rng.choice([-1, -1, 0, 0, 1, 2, 5, cap, FREE])})
+        for w in wraps:  # and still something at every wrap point
+            ops.append({"at": max(0, w - rng.randint(0, D)), "mode": rng.choice(["full", "depth", "slide"]), "steps": rng.randint(1, D),
+                        "k": rng.randint(1, max(1, cap)), "window": -1})
+        ops.sort(key=lambda o: o["at"])
+    # the Go side performs ops in order of `at` and skips those overtaken by a slide
+    return [o for o in ops if o["at"] < items]
+
+
+LONG_KINDS = ["slide", "full", "depth", "random"]
+
+
+def gen_long_relay(rng, idx, items, dense=True, bound_ms=None, kinds=None):
+    sc = {"name": "long-relay-%d-%d" % (items, idx), "gomaxprocs": PROCS[idx % len(PROCS)], "seed": rng.randrange(1, 2 ** 31),
+          "out_cap": rng.choice([0, 1, 8, 8]), "in_cap": rng.choice([0, 1, 8, 8]), "send_cap": rng.choice([0, 0, 1, 4]),
+          "recv_cap": rng.choice([0, 0, 1, 4]), "quiet_us": 300, "bound_ms": bound_ms or (120000 + items * 10)}
+    caps = relay_caps(sc)
+    # the two directions get different scripts; over four consecutive scenarios each direction sees every kind
+    ko, ki = kinds or (LONG_KINDS[idx % 4], LONG_KINDS[(idx + 1 + idx // 4) % 4])
+    em = 1 if items > 20000 or idx % 3 else rng.choice([2, 3])
+    sc["out"] = {"items": items, "emitters": em, "window": 0 if ko != "random" else rng.choice([0, 1, 3, FREE]),
+                 "jitter": rng.choice([0, 0, 1, 2]) if items <= 20000 else rng.choice([0, 0, 1]),
+                 "kind": ko, "ops": long_ops(rng, items, caps["out"], ko, idx, dense)}
+    sc["in"] = {"items": items, "emitters": 1, "window": 0 if ki != "random" else rng.choice([0, 1, 3, FREE]),
+                "jitter": rng.choice([0, 0, 1, 2]) if items <= 20000 else rng.choice([0, 0, 1]),
+                "kind": ki, "ops": long_ops(rng, items, caps["in"], ki, idx, dense)}
+    return sc
+
+
+def gen_long_fan(rng, idx, items, cycles, dense=True, stopped=True):
+    icap = rng.choice([0, 1, 2, 8, 8, 16])
+    cap = fan_cap(icap)
+    kind = LONG_KINDS[idx % 4]
+    nres = rng.choice([1, 2, 2, 3])
+    res = [{"jitter": rng.choice([0, 0, 1]), "slow_us": 0, "ops": long_ops(rng, items, cap, kind, idx, dense)}]
+    for k in range(1, nres):
+        ops = []
+        if rng.random() < 0.5:  # a second resident that stalls on its own now and then
+            ops = [{"at": at, "mode": "full", "steps": 0, "k": 0, "window": -1}
+                   for at in sorted(rng.sample(range(items), max(3, items // (400 if dense else 8000))))]
+        res.append({"jitter": rng.choice([0, 1, 2]) if items <= 20000 else rng.choice([0, 1]),
+                    "slow_us": rng.choice([0, 0, 0, 20]) if items <= 20000 else 0, "ops": ops})
+    ipc = max(1, items // max(1, cycles))
+    return {"name": "long-fan-%d-%d" % (items, idx), "gomaxprocs": PROCS[idx % len(PROCS)], "seed": rng.randrange(1, 2 ** 31),
+            "icap": icap, "items": items, "cycles": cycles, "cyclers": rng.choice([2, 3, 4]), "max_want": min(12, 2 * ipc),
+            "stopped_pct": rng.choice([0, 20, 40]) if stopped else 0, "patience_us": 100,
+            "window": 0 if kind != "random" else rng.choice([0, 1, 3, FREE]), "jitter": rng.choice([0, 0, 1]), "kind": kind,
+            "quiet_us": 300, "bound_ms": 10000, "deadline_ms": 300000 + 20 * (items + cycles), "residents": res}
 
 
 # ----------------------------------------------------------------------------- running the harnesses
@@ -184,6 +294,153 @@ def eval_relay(results, tag):
     if len(verdict) != len(results):
         raise CheckError("relay monitor evaluated %d of %d histories" % (len(verdict), len(results)))
     return [verdict[i] for i in range(len(results))]
+
+
+# ----------------------------------------------------------------------------- long histories: compact notation
+# A long history is handed to coqc as runs of the harness' counter sequence (Run/TransportLongRun.v expands them and the expanded lists go
+# through accepts_history like any short history).  Everything below is notation: what is emitted is re-expanded here and compared with
+# the recorded lists before coqc sees it, so a mistake in the compression is a machinery error, never a verdict.
+
+HEADL = HEAD.replace("Run.TransportRun.", "Run.TransportRun Run.TransportLongRun.")
+
+
+def py_cmsg(k, j):
+    return [STATUSES[(j >> 14) % 5] | k, (j >> 7) & 0x7f, j & 0x7f]
+
+
+def decode_cmsg(m):
+    """(k, j) with py_cmsg(k, j) == m, or None"""
+    if len(m) != 3 or (m[0] & 0xF0) not in STATUSES or not (0 <= m[1] < 128 and 0 <= m[2] < 128):
+        return None
+    return m[0] & 15, (STATUSES.index(m[0] & 0xF0) << 14) | (m[1] << 7) | m[2]
+
+
+def compress_msgs(msgs):
+    """list of messages -> list of ('run', k, start, len) | ('raw', msg)"""
+    segs = []
+    for m in msgs:
+        d = decode_cmsg(m)
+        if d is None:
+            segs.append(("raw", list(m)))
+            continue
+        k, j = d
+        if segs and segs[-1][0] == "run" and segs[-1][1] == k and segs[-1][2] + segs[-1][3] == j and j < COUNTER_MSGS:
+            segs[-1] = ("run", k, segs[-1][2], segs[-1][3] + 1)
+        else:
+            segs.append(("run", k, j, 1))
+    back = []
+    for sg in segs:
+        if sg[0] == "raw":
+            back.append(sg[1])
+        else:
+            back.extend(py_cmsg(sg[1], j) for j in range(sg[2], sg[2] + sg[3]))
+    if back != [list(m) for m in msgs]:
+        raise CheckError("compact notation of a long relay history does not expand to the recorded history")
+    return segs
+
+
+def cmsegs(segs):
+    return clist(["(MRaw %s)" % cmsg(sg[1]) if sg[0] == "raw" else "(MRun %d %d %d)" % (sg[1], sg[2], sg[3]) for sg in segs])
+
+
+def compress_ints(xs):
+    runs = []
+    for x in xs:
+        if runs and runs[-1][0] + runs[-1][1] == x:
+            runs[-1][1] += 1
+        else:
+            runs.append([x, 1])
+    back = [y for a, n in runs for y in range(a, a + n)]
+    if back != list(xs):
+        raise CheckError("compact notation of a long fan-out history does not expand to the recorded history")
+    return runs
+
+
+def long_crec(c):
+    return "(long_crec %s %d %d %d %d %s %s)" % (cbool(c["ok"]), c["sc_done"], c["sr_started"], c["dc_done"], c["dr_started"], cbool(c["drained"]),
+                                                 clist(["(%d, %d)" % (a, n) for a, n in compress_ints(c["received"])]))
+
+
+def eval_long_relay(results, tag):
+    """results: list of (scenario, history). Returns per history (relay_ok, in_ok, first differing position of the input direction or None)."""
+    shards, cur, cost = [], [], 0
+    comp = []
+    for i, (sc, h) in enumerate(results):
+        c = {"sent": [compress_msgs(e) for e in h["sent"]], "port": compress_msgs(h["port"]), "arrived": compress_msgs(h["arrived"]),
+             "got": compress_msgs(h["got"])}
+        comp.append(c)
+        cur.append(i)
+        cost += 2000 + len(h["port"]) + len(h["got"]) + 40 * (len(c["port"]) + len(c["got"]) + sum(len(e) for e in c["sent"]) + len(c["arrived"]))
+        if cost > 250000:
+            shards.append(cur)
+            cur, cost = [], 0
+    if cur:
+        shards.append(cur)
+    items = []
+    for k, sh in enumerate(shards):
+        body = HEADL
+        for i in sh:
+            c = comp[i]
+            body += "Definition L%d : history := long_relay_history %s %s %s %s.\n" % (
+                i, clist([cmsegs(e) for e in c["sent"]]), cmsegs(c["port"]), cmsegs(c["arrived"]), cmsegs(c["got"]))
+        body += "Definition RV := Eval vm_compute in %s.\nPrint RV.\n" % clist(
+            ["(%d, accepts_history L%d, relay_ok (h_sent L%d) (h_port L%d), in_ok (h_arrived L%d) (h_got L%d), "
+             "option_map N.of_nat (first_diff (h_arrived L%d) (h_got L%d) 0))" % ((i,) * 8) for i in sh])  # as N: a unary nat of 65536 overflows the read-back
+        items.append(("c15_%s_longrelay_%d" % (tag, k), body))
+    verdict = {}
+    for out in coq_eval_many(items):
+        d = extract_defs(out)
+        if "RV" not in d or isinstance(d["RV"], tuple):
+            raise CheckError("cannot read RV from coqc output: %r" % (d.get("RV"),))
+        for (i, acc, a, b, fd) in d["RV"]:
+            if acc != (a and b):
+                raise CheckError("accepts_history disagrees with its parts on long history %d" % i)
+            verdict[i] = (a, b, fd[1] if isinstance(fd, tuple) else None)
+    if len(verdict) != len(results):
+        raise CheckError("relay monitor evaluated %d of %d long histories" % (len(verdict), len(results)))
+    return [verdict[i] for i in range(len(results))], comp
+
+
+def eval_long_fan(results, tag):
+    """results: list of (scenario, history). All consumer records (residents, attach/detach cycles) of a session form one history;
+    it is cut into parts of <= 1200 records for coqc (fanout_accepts is a forallb: the whole is accepted iff every part is -
+    Proofs/TransportLongProofs.v fanout_accepts_app).  Returns the rejected record indices per history."""
+    parts = []  # (history index, offset, records)
+    for i, (sc, h) in enumerate(results):
+        recs = h["records"]
+        for off in range(0, max(1, len(recs)), 1200):
+            parts.append((i, off, recs[off:off + 1200]))
+    shards, cur, cost = [], [], 0
+    for pi, (i, off, recs) in enumerate(parts):
+        cur.append(pi)
+        cost += 100 + len(recs)
+        if cost > 1500:
+            shards.append(cur)
+            cur, cost = [], 0
+    if cur:
+        shards.append(cur)
+    items = []
+    for k, sh in enumerate(shards):
+        body = HEADL
+        for pi in sh:
+            body += "Definition H%d : list crec := %s.\n" % (pi, clist([long_crec(c) for c in parts[pi][2]]))
+        body += "Definition REJ := Eval vm_compute in %s.\nPrint REJ.\n" % clist(
+            ["(%d, accepts_history (mkHistory [] [] [] [] %d H%d), fanout_rejected %d H%d)"
+             % (pi, slack_of(results[parts[pi][0]][0]), pi, slack_of(results[parts[pi][0]][0]), pi) for pi in sh])
+        items.append(("c15_%s_longfan_%d" % (tag, k), body))
+    rej, seen = {i: [] for i in range(len(results))}, 0
+    for out in coq_eval_many(items):
+        d = extract_defs(out)
+        if "REJ" not in d or isinstance(d["REJ"], tuple) and d["REJ"][:1] == ("UNPARSED",):
+            raise CheckError("cannot read REJ from coqc output: %r" % (d.get("REJ"),))
+        for (pi, acc, lst) in d["REJ"]:
+            if acc != (not lst):
+                raise CheckError("accepts_history and fanout_rejected disagree on part %d of a long history" % pi)
+            rej[parts[pi][0]] += [parts[pi][1] + x for x in lst]
+            seen += 1
+    if seen != len(parts):
+        raise CheckError("fan-out monitor evaluated %d of %d parts of the long histories" % (seen, len(parts)))
+    return [sorted(rej[i]) for i in range(len(results))]
 
 
 # ----------------------------------------------------------------------------- explanations (python side: wording only)
@@ -325,6 +582,153 @@ def check_relay(run_, binary, scenarios, tag, race, stats):
         stats["rejected"] += 1
 
 
+def long_relay_explain(sc, h, comp, a, b, fd):
+    if h["timeout"]:
+        return "transport stalled: port received %d of %d messages, midiEventsIn delivered %d of %d (session bound %d ms)" % (
+            len(h["port"]), sc["out"]["items"], len(h["got"]), sc["in"]["items"], sc["bound_ms"])
+    if not b:
+        arr, got = h["arrived"], h["got"]
+        pos = fd if fd is not None else next((j for j, (x, y) in enumerate(zip(arr, got)) if x != y), min(len(arr), len(got)))
+
+        def name(m):
+            d = decode_cmsg(m)
+            return "#%d %r" % (d[1], m) if d else repr(m)
+        if pos < len(arr) and pos < len(got):
+            ctx = [decode_cmsg(m)[1] if decode_cmsg(m) else m for m in got[max(0, pos - 2):pos + 12]]
+            return ("input stream (port -> devices), after %d messages had been delivered in order: midiEventsIn delivered message %s at position %d "
+                    "where the port had produced %s; delivered counters around it: %r; port produced %d messages, midiEventsIn delivered %d"
+                    % (pos, name(got[pos]), pos, name(arr[pos]), ctx, len(arr), len(got)))
+        return "input stream (port -> devices): port produced %d messages, midiEventsIn delivered %d (first %d in order)" % (len(arr), len(got), pos)
+    for k, e in enumerate(h["sent"]):
+        gotk = [m for m in h["port"] if m and (m[0] & 15) == k]
+        if gotk != e:
+            for j, (x, y) in enumerate(zip(gotk, e)):
+                if x != y:
+                    return ("output stream (devices -> port), emitter %d, after %d of its messages had reached the port in order: port received %r at its "
+                            "position %d where %r was sent (reordered, lost or altered)" % (k, j, x, j, y))
+            return "output stream (devices -> port): emitter %d sent %d messages, port received %d of them" % (k, len(e), len(gotk))
+    return "port received messages no emitter sent"
+
+
+def runs_json(segs):
+    return [{"raw": sg[1]} if sg[0] == "raw" else {"emitter": sg[1], "first_counter": sg[2], "count": sg[3]} for sg in segs]
+
+
+def stall_stats(stats, side, stalls, full_depth):
+    for st in stalls:
+        stats["stalls"][side] += 1
+        if st["blocked"] and st["depth"] >= full_depth:
+            stats["stalls_full"][side] += 1
+            stats["full_at"][side].add(st["at"])
+
+
+def check_long_relay(run_, binary, scenarios, tag, race, stats):
+    res = run_groups(binary, "c15long", scenarios, 1)
+    ok, seen = [], set()
+    for sc, h, err in res:
+        if h is None:
+            if err not in seen:
+                seen.add(err)
+                run_.violation("C15 long-session relay harness crashed or hung while running a batch containing scenario %s: %s" % (sc["name"], err),
+                               {"kind": "relay-long-batch", "scenario": dict(sc, out=dict(sc["out"], ops=len(sc["out"]["ops"])), **{"in": dict(sc["in"], ops=len(sc["in"]["ops"]))}),
+                                "race": race, "error": err, "monitor": "Run/TransportRun.v relay_ok/in_ok"})
+                stats["crashed"] += 1
+            continue
+        ok.append((sc, h))
+    if not ok:
+        return
+    ver, comp = eval_long_relay(ok, tag)
+    for (sc, h), (a, b, fd), c in zip(ok, ver, comp):
+        stats["relay_long"] += 1
+        stats["long_out"] += len(h["port"])
+        stats["long_in"] += len(h["got"])
+        stats["long_out_max"] = max(stats["long_out_max"], len(h["port"]))
+        stats["long_in_max"] = max(stats["long_in_max"], len(h["got"]))
+        caps = relay_caps(sc)
+        stall_stats(stats, "out", h["out_stalls"], caps["out"] + sc["out"]["emitters"])
+        stall_stats(stats, "in", h["in_stalls"], caps["in"] + 1)
+        if len(h["port"]) > 256 and len(h["got"]) > 256 and (h["out_stalls"] or h["in_stalls"]):
+            stats["nontrivial"].add((sc["name"], len(h["port"]), len(h["got"]), len(h["out_stalls"]), len(h["in_stalls"])))
+        if a and b and not h["timeout"]:
+            continue
+        pos = fd
+        near = [st for st in h["in_stalls"] if pos is not None and abs(st["at"] - pos) <= 64][:40]
+        small = dict(sc, out=dict(sc["out"]), **{"in": dict(sc["in"])})
+        run_.violation("long relay session %s (GOMAXPROCS=%d, caps out/send/recv/in %d/%d/%d/%d, %d messages per direction%s): %s"
+                       % (sc["name"], sc["gomaxprocs"], sc["out_cap"], sc["send_cap"], sc["recv_cap"], sc["in_cap"], sc["in"]["items"],
+                          ", -race" if race else "", long_relay_explain(sc, h, c, a, b, fd)),
+                       {"kind": "relay-long-history", "scenario": small, "race": race,
+                        "history_as_runs_of_the_counter_sequence": {
+                            "sent": [runs_json(e) for e in c["sent"]], "port": runs_json(c["port"]),
+                            "arrived": runs_json(c["arrived"]), "got": runs_json(c["got"])},
+                        "first_difference_in": pos, "timeout": h["timeout"],
+                        "got_around_first_difference": h["got"][max(0, pos - 4):pos + 16] if pos is not None else None,
+                        "arrived_around_first_difference": h["arrived"][max(0, pos - 4):pos + 16] if pos is not None else None,
+                        "consumer_stalls_near_first_difference": near,
+                        "monitor": "Run/TransportRun.v accepts_history on Run/TransportLongRun.v long_relay_history: relay_ok (out) = %s, in_ok (in) = %s" % (a, b)})
+        stats["rejected"] += 1
+
+
+def long_rec_explain(sc, c, ri):
+    k = "record %d (%s%s)" % (ri, c["kind"], ", output id %d" % c["id"] if c["kind"] != "resident" or c["ok"] else "")
+    if not c["ok"]:
+        return "%s: %s" % (k, c["why"] or "call did not complete")
+    fake = {"kind": c["kind"], "panic": "", "spawn_returned": True, "spawn_err": "", "despawn_called": True, "despawn_returned": True,
+            "despawn_err": "", "reader_done": True, "id": c["id"], "received": c["received"], "sc_done": c["sc_done"], "sr_started": c["sr_started"],
+            "dc_done": c["dc_done"], "dr_started": c["dr_started"], "drained": c["drained"]}
+    return explain_consumer(sc, fake, ri).replace("consumer %d" % ri, "record %d, output id %d," % (ri, c["id"]), 1)
+
+
+def check_long_fan(run_, binary, scenarios, tag, race, stats):
+    res = run_groups(binary, "c15fanlong", scenarios, 1)
+    ok, seen = [], set()
+    for sc, h, err in res:
+        if h is None:
+            if err not in seen:
+                seen.add(err)
+                run_.violation("C15 long-session fan-out harness crashed or hung while running a batch containing scenario %s: %s" % (sc["name"], err),
+                               {"kind": "fanout-long-batch", "scenario": dict(sc, residents=len(sc["residents"])), "race": race, "error": err,
+                                "monitor": "Run/TransportRun.v fanout_accepts"})
+                stats["crashed"] += 1
+            continue
+        ok.append((sc, h))
+    if not ok:
+        return
+    rej = eval_long_fan(ok, tag)
+    for (sc, h), r in zip(ok, rej):
+        recs = h["records"]
+        cyc = [c for c in recs if c["kind"] != "resident"]
+        stats["fan_long"] += 1
+        stats["consumers"] += len(recs)
+        stats["items"] += sum(len(c["received"]) for c in recs)
+        stats["fan_long_items"] += h["pushed"]
+        stats["fan_long_items_max"] = max(stats["fan_long_items_max"], h["pushed"])
+        stats["cycles"] += len(cyc)
+        stats["cycles_max"] = max(stats["cycles_max"], len(cyc))
+        stats["cycles_stopped"] += sum(1 for c in cyc if c["kind"] == "stopped")
+        stats["cycles_received"] += sum(1 for c in cyc if c["received"])
+        stats["max_id"] = max(stats["max_id"], h["max_id"])
+        stall_stats(stats, "fan", [st for st in h["stalls"] if st["resident"] == 0], fan_cap(sc["icap"]) + 1)
+        if len(cyc) >= 100 and any(c["received"] for c in cyc):
+            stats["nontrivial"].add((sc["name"], h["pushed"], len(cyc), len(h["stalls"])))
+        if not r and not h["abandoned"]:
+            continue
+        why = [long_rec_explain(sc, recs[ri], ri) for ri in r[:4]]
+        if h["abandoned"]:
+            why.insert(0, h["why"])
+        run_.violation("long fan-out session %s (GOMAXPROCS=%d, cap %d, %d items, %d attach/detach cycles, %d residents%s): %s%s"
+                       % (sc["name"], sc["gomaxprocs"], sc["icap"], h["pushed"], len(cyc), len(sc["residents"]), ", -race" if race else "",
+                          "; ".join(why[:4]), "; %d records rejected in all" % len(r) if len(r) > 4 else ""),
+                       {"kind": "fanout-long-history", "scenario": sc, "race": race, "pushed": h["pushed"], "cycles": len(cyc),
+                        "abandoned": h["abandoned"], "why": h["why"], "rejected_records": r[:200],
+                        "records": [dict(recs[ri], index=ri, received_runs=compress_ints(recs[ri]["received"]),
+                                         received=recs[ri]["received"] if len(recs[ri]["received"]) <= 64 else "see received_runs")
+                                    for ri in sorted(set(x for q in r[:20] for x in (q - 1, q, q + 1) if 0 <= x < len(recs)))],
+                        "monitor": "Run/TransportRun.v accepts_history / fanout_accepts (slack = max 1 cap + 2) on every part of the record list"},
+                       signature=D16_SIG if (not r and h["abandoned"] and sc["stopped_pct"] > 0 and "DespawnOutput" in h["why"]) else None)
+        stats["rejected"] += 1
+
+
 def build_all(run_, race):
     bins = {}
     for d in ("utils", "midi"):
@@ -342,9 +746,10 @@ def ensure_c15_vo():
     does not build them: compile them here when their .vo is missing or older than what it depends on."""
     listed = open(os.path.join(COQ, "_CoqProject")).read()
     deps = ["theories/Model/Relay", "theories/Model/Fanout", "theories/Run/TransportRun"]
-    for f in ("theories/Proofs/TransportProofs", "theories/Properties/C15"):
+    for f in ("theories/Proofs/TransportProofs", "theories/Properties/C15", "theories/Run/TransportLongRun", "theories/Proofs/TransportLongProofs"):
         if f + ".v" in listed:
-            return
+            deps.append(f)
+            continue
         vo = os.path.join(COQ, f + ".vo")
         src = [os.path.join(COQ, d + ".vo") for d in deps] + [os.path.join(COQ, f + ".v")]
         if not os.path.exists(vo) or any(os.path.getmtime(x) > os.path.getmtime(vo) for x in src if os.path.exists(x)):
@@ -355,6 +760,18 @@ def ensure_c15_vo():
         deps.append(f)
 
 
+LONG_LEMMAS = ["nrange_nth", "expand_mrun_length", "expand_mrun_nth", "cmsg_inj", "cmsg_tag", "msg_eqb_cmsg", "in_ok_eq",
+               "fanout_accepts_app", "accepts_history_fanout_app"]
+
+
+def long_lemmas_closed():
+    """The facts about the compact notation of long histories (Proofs/TransportLongProofs.v) must be proved without axioms."""
+    body = "From HIDI Require Import Proofs.TransportLongProofs.\n" + "".join("Print Assumptions %s.\n" % n for n in LONG_LEMMAS)
+    out = coq_eval("c15_long_lemmas", body)
+    if out.count("Closed under the global context") != len(LONG_LEMMAS):
+        raise CheckError("Proofs/TransportLongProofs.v: a lemma about the compact notation depends on axioms: %s" % out[-800:])
+
+
 def proof_side(run_):
     bad = scan_forbidden()
     if bad:
@@ -362,13 +779,71 @@ def proof_side(run_):
     ensure_coq_built()
     ensure_c15_vo()
     run_.proof_obligations()
+    long_lemmas_closed()
+
+
+def new_stats():
+    return {"fan": 0, "relay": 0, "consumers": 0, "items": 0, "messages": 0, "rejected": 0, "crashed": 0, "stopped_despawned": 0,
+            "nontrivial": set(), "relay_long": 0, "fan_long": 0, "long_out": 0, "long_in": 0, "long_out_max": 0, "long_in_max": 0,
+            "fan_long_items": 0, "fan_long_items_max": 0, "cycles": 0, "cycles_max": 0, "cycles_stopped": 0, "cycles_received": 0, "max_id": 0,
+            "stalls": {"out": 0, "in": 0, "fan": 0}, "stalls_full": {"out": 0, "in": 0, "fan": 0},
+            "full_at": {"out": set(), "in": set(), "fan": set()}}
+
+
+def wraps_covered(full_at, margin=40):
+    """multiples of 256 that have a completely-full stall within `margin` messages before them (the buffers then span the multiple)"""
+    return sorted({w for at in full_at for w in [(at + margin) // 256 * 256] if w > 0 and 0 <= w - at <= margin} |
+                  {at // 256 * 256 for at in full_at if at >= 256 and at % 256 <= 8})
+
+
+def long_coverage(stats, long_relay, long_fan):
+    cov = {"relay_sessions": stats["relay_long"], "fanout_sessions": stats["fan_long"],
+           "messages_devices_to_port": stats["long_out"], "messages_port_to_devices": stats["long_in"],
+           "longest_session_devices_to_port": stats["long_out_max"], "longest_session_port_to_devices": stats["long_in_max"],
+           "fanout_items_pushed": stats["fan_long_items"], "longest_fanout_stream": stats["fan_long_items_max"],
+           "attach_detach_cycles": stats["cycles"], "most_cycles_in_one_session": stats["cycles_max"],
+           "cycles_detached_after_they_stopped_reading": stats["cycles_stopped"], "cycles_that_received_items": stats["cycles_received"],
+           "highest_output_id_handed_out": stats["max_id"],
+           "script_kinds": {k: {"devices_to_port": sum(1 for s in long_relay if s["out"]["kind"] == k),
+                                "port_to_devices": sum(1 for s in long_relay if s["in"]["kind"] == k),
+                                "fanout": sum(1 for s in long_fan if s["kind"] == k)} for k in LONG_KINDS}}
+    for side, name in (("out", "devices_to_port"), ("in", "port_to_devices"), ("fan", "fanout_lead_resident")):
+        fa = stats["full_at"][side]
+        w = wraps_covered(fa)
+        offs = sorted({at - (at + 40) // 256 * 256 for at in fa if -40 <= at - (at + 40) // 256 * 256 <= 8})
+        cov["stalls_" + name] = {
+            "scripted_stalls": stats["stalls"][side], "ended_with_every_buffer_full": stats["stalls_full"][side],
+            "distinct_absolute_indices_with_every_buffer_full": len(fa),
+            "multiples_of_256_spanned_by_full_buffers": len(w), "of_which_65536": 65536 in w,
+            "first_multiples": w[:8],
+            "offsets_from_the_multiple_covered": ("%d..%d (%d distinct)" % (offs[0], offs[-1], len(offs))) if offs else "none"}
+    return cov
+
+
+def long_plan(rng, tier, stopped=True):
+    """Long sessions of the tier: (relay scenarios, fan-out scenarios).
+    quick   : 16 relay sessions x 1600 messages per direction (wrap points 256..1536, every script kind in both directions, every
+              GOMAXPROCS) + 1 x 72000 (slide in both directions, only around 256..1280, 32768, 65280, 65536, 65792); 8 fan-out sessions x 1600 items x >= 320 attach/detach
+              cycles + 1 x 72000 items x >= 400 cycles
+    thorough: 160 x 1600..4000 and 12 x 72000 with the scripts at every multiple of 256; fan-out 60 x (1600..4000 items, >= 320 cycles) and
+              4 x (72000..200000 items, >= 70000 cycles)"""
+    big = LONG_MIN["thorough"]
+    if tier == "quick":
+        relay = [gen_long_relay(rng, i, LONG_MIN["quick"]) for i in range(16)] + [gen_long_relay(rng, 16, big, dense=False, kinds=("slide", "slide"))]
+        fan = [gen_long_fan(rng, i, LONG_MIN["quick"], 320, stopped=stopped) for i in range(8)] + \
+              [gen_long_fan(rng, 8, big, 400, dense=False, stopped=stopped)]
+    else:
+        relay = [gen_long_relay(rng, i, rng.choice([1600, 1600, 2700, 4000])) for i in range(160)] + \
+                [gen_long_relay(rng, 160 + i, big) for i in range(12)]
+        fan = [gen_long_fan(rng, i, rng.choice([1600, 1600, 2700, 4000]), rng.choice([320, 600, 1200]), stopped=stopped) for i in range(60)] + \
+              [gen_long_fan(rng, 60 + i, rng.choice([big, 120000, 200000]), 70000, stopped=stopped) for i in range(4)]
+    return relay, fan
 
 
 def run(run_):
     tier, rng = run_.tier, random.Random(run_.seed)
     proof_side(run_)
-    stats = {"fan": 0, "relay": 0, "consumers": 0, "items": 0, "messages": 0, "rejected": 0, "crashed": 0,
-             "stopped_despawned": 0, "nontrivial": set()}
+    stats = new_stats()
     bins = build_all(run_, False)
     if bins is None:
         return
@@ -387,6 +862,11 @@ def run(run_):
         run_.coverage["skipped_after_corpus_failure"] = len(withst) - len(withst[:8])
     check_fanout(run_, bins["utils"], fan, "gen", False, stats)
     check_relay(run_, bins["midi"], relay, "gen", False, stats)
+    # long sessions (own random stream: the scenarios above are the same as before they were added)
+    lrng = random.Random(run_.seed * 31 + 15)
+    long_relay, long_fan = long_plan(lrng, tier, stopped=not d16_hit)
+    check_long_relay(run_, bins["midi"], long_relay, "gen", False, stats)
+    check_long_fan(run_, bins["utils"], long_fan, "gen", False, stats)
     raced = 0
     if tier == "thorough":
         rb = build_all(run_, True)
@@ -397,22 +877,44 @@ def run(run_):
                 fr = [s for s in fr if not any(c["kind"] == "stopped" for c in s["consumers"])]
             check_fanout(run_, rb["utils"], fr, "race", True, stats)
             check_relay(run_, rb["midi"], rr, "race", True, stats)
-            raced = len(fr) + len(rr)
+            lr = [gen_long_relay(lrng, 1000 + i, 1600) for i in range(12)]
+            lf = [gen_long_fan(lrng, 1000 + i, 1600, 320, stopped=not d16_hit) for i in range(12)]
+            check_long_relay(run_, rb["midi"], lr, "race", True, stats)
+            check_long_fan(run_, rb["utils"], lf, "race", True, stats)
+            raced = len(fr) + len(rr) + len(lr) + len(lf)
     sample_fan = dict(fan[0], consumers=fan[0]["consumers"][:3]) if fan else corpus[0]
     run_.coverage.update({
-        "evaluations": stats["fan"] + stats["relay"],
+        "evaluations": stats["fan"] + stats["relay"] + stats["relay_long"] + stats["fan_long"],
         "distinct_nontrivial": len(stats["nontrivial"]),
         "rule": "fan-out: corpus scenarios (D16 first) then seeded random scenarios - input capacity in {0,1,2,8,16}, 20-320 items, 1-5 consumers "
                 "(fast / slow / stopped after k reads) attached and detached at random stream positions, schedule jitter (Gosched, sleeps, spins) "
                 "derived from the scenario seed, GOMAXPROCS cycling over {1,2,4,16}, 4 scenarios concurrently per process; relay: 1-16 emitters x 5-120 "
                 "tagged 3-byte messages, channel capacities {0,1,4,8}, 0-150 input messages of 1-3 bytes, slow or fast port. "
-                "non-trivial = distinct histories in which at least one consumer received items (fan-out) or >= 2 emitters reached the port (relay); "
-                "every history is judged in coqc by the monitor the soundness theorems are about",
-        "samples": [{"fanout_scenario": corpus[0]}, {"fanout_scenario": sample_fan}, {"relay_scenario": relay[0] if relay else None}],
+                "long sessions (state that only goes wrong late: counters wrapping at 2^8 / 2^16, ring indices, id reuse): one ProcessMidiEvents "
+                "instance carries %d (and, once per quick run / 12 times per thorough run, %d) counter-tagged messages in BOTH directions at once, "
+                "channel capacities {0,1,4,8}; each direction's consumer follows a script: lockstep (all buffers empty) up to a point, then it stops "
+                "reading until the producer is blocked in a send (all buffers of that direction full: port->devices recv_cap+12+in_cap messages, "
+                "devices->port out_cap+1+send_cap, detected by the absence of progress, not by counting), then it drains or slides (reads one message, "
+                "waits until the producer is blocked again, ...).  Script kinds, each used in both directions: slide = buffers full at every absolute "
+                "index from w-(cap+4) to w+8 around every multiple w of 256 (quick, 72000-message session: only w <= 1280, 32768, 65536+-256); full = "
+                "lockstep to w-d then full then drain, d cycling over 0..cap+4; depth = producer K in 1..cap ahead at w-d; random = stalls of all kinds "
+                "at random indices with a randomly changing producer window.  fan-out long sessions: residents attached for the whole stream (the lead "
+                "follows the same scripts; capacity icap+1+max(icap,1)), while 2-4 cyclers attach, read 0..n items, detach (reading on, or having "
+                "stopped reading) over and over - ids reused all the time; every cycle and every resident is one consumer record for fanout_accepts. "
+                "Long histories are written for coqc as runs of the counter sequence (Run/TransportLongRun.v expands them, "
+                "Proofs/TransportLongProofs.v: cmsg_inj, cmsg_tag, accepts_history_fanout_app) and judged by the same accepts_history. "
+                "non-trivial = distinct histories in which at least one consumer received items (fan-out), >= 2 emitters reached the port (relay), "
+                "> 256 messages per direction with at least one scripted stall (long relay), >= 100 attach/detach cycles some of which received items "
+                "(long fan-out); every history is judged in coqc by the monitor the soundness theorems are about" % (LONG_MIN["quick"], LONG_MIN["thorough"]),
+        "samples": [{"fanout_scenario": corpus[0]}, {"fanout_scenario": sample_fan}, {"relay_scenario": relay[0] if relay else None},
+                    {"long_relay_scenario": dict(long_relay[0], out=dict(long_relay[0]["out"], ops=long_relay[0]["out"]["ops"][:3]),
+                                                 **{"in": dict(long_relay[0]["in"], ops=long_relay[0]["in"]["ops"][:3])})},
+                    {"long_fanout_scenario": dict(long_fan[0], residents=[dict(r, ops=r["ops"][:3]) for r in long_fan[0]["residents"]])}],
         "histories_fanout": stats["fan"], "histories_relay": stats["relay"], "consumers_checked": stats["consumers"],
         "items_delivered_checked": stats["items"], "relay_messages_checked": stats["messages"],
         "stopped_consumers_despawned_within_bound": stats["stopped_despawned"],
         "histories_under_race_detector": raced, "despawn_bound_ms": BOUND_MS,
+        "long_sessions": long_coverage(stats, long_relay, long_fan),
         "generator": "one random.Random(seed) draws all scenario parameters; the Go side seeds its jitter PRNGs from the scenario seed",
         "exhaustive": False,
         "correspondence_obligations": 3,
@@ -427,6 +929,13 @@ def run(run_):
         "with a never-ending input stream DespawnOutput additionally relies on sync.Mutex not starving a waiter (Go's starvation mode), assumed",
         "an unbuffered channel is modelled as a stage of capacity 1; stream positions are observed through two atomic counters (pushes started / "
         "completed) that bound the model's positions from the accepting side (C15_monitor_mono)",
+        "long histories reach coqc as runs of the harness' counter sequence, expanded by Run/TransportLongRun.v (expand_msegs, expand_nruns) before "
+        "accepts_history judges them; lib/c15.py re-expands what it emits and compares it with the recorded lists (a mismatch is a machinery error); "
+        "Proofs/TransportLongProofs.v (no axioms): cmsg is injective on (emitter, counter) below 16 x 81920 and carries its emitter in msg_tag, a list of "
+        "consumer records is accepted iff each of its parts is (accepts_history_fanout_app)",
+        "the long-session harnesses detect 'producer blocked, every buffer full' by the absence of progress for 300 us: a wrong guess (slow machine) only "
+        "lowers the measured coverage (stalls that 'ended_with_every_buffer_full'), it is never judged; their only time bounds are 10 s per "
+        "SpawnOutput / DespawnOutput call and >= 120 s per session",
         "not modelled: ctx cancellation and closing of midiEventsOut / the fan-out input (shutdown), port Open errors, logging, the score counters",
     ]
 
@@ -436,16 +945,22 @@ def replay(run_, data):
     scenario and its seed are); the recorded history is re-judged too so that the monitor's verdict can be reproduced."""
     proof_side(run_)
     rep = data["replay"]
-    stats = {"fan": 0, "relay": 0, "consumers": 0, "items": 0, "messages": 0, "rejected": 0, "crashed": 0,
-             "stopped_despawned": 0, "nontrivial": set()}
+    stats = new_stats()
     bins = build_all(run_, bool(rep.get("race")))
     if bins is None:
         return
-    if rep.get("kind", "").startswith("fanout"):
+    if rep.get("kind", "").startswith("fanout-long"):
+        for _ in range(3):
+            check_long_fan(run_, bins["utils"], [rep["scenario"]], "replay", bool(rep.get("race")), stats)
+    elif rep.get("kind", "").startswith("fanout"):
         for _ in range(3):
             check_fanout(run_, bins["utils"], [rep["scenario"]], "replay", bool(rep.get("race")), stats)
+    elif rep.get("kind", "").startswith("relay-long"):
+        for _ in range(3):
+            check_long_relay(run_, bins["midi"], [rep["scenario"]], "replay", bool(rep.get("race")), stats)
     elif rep.get("kind", "").startswith("relay"):
         for _ in range(3):
             check_relay(run_, bins["midi"], [rep["scenario"]], "replay", bool(rep.get("race")), stats)
-    run_.coverage.update({"evaluations": stats["fan"] + stats["relay"], "distinct_nontrivial": len(stats["nontrivial"]),
+    run_.coverage.update({"evaluations": stats["fan"] + stats["relay"] + stats["relay_long"] + stats["fan_long"],
+                          "distinct_nontrivial": len(stats["nontrivial"]),
                           "rule": "replay of one recorded scenario, three times", "samples": [rep.get("scenario")]})
